@@ -3,6 +3,82 @@ import re
 import exlib
 
 
+# functions of huffman/src/lib.rs that existed when the model was written (modelled or tied on their
+# own); any other function of the file that a modelled function calls is a new private helper and is
+# followed
+KNOWN_FNS = {
+    "compress_into", "compress", "decompress_into", "decompress", "into_iter", "next", "size_hint", "len",
+    "next_back", "new", "from_frequencies", "from_frequencies_array", "compressed_bit_len", "compressed_len",
+    "compressed_len_bug", "compress_into_vec", "compress_bug", "compress_impl", "compress_impl_unsafe",
+    "decompress_into_vec", "decompress_impl", "decompress_unsafe", "symbol_bit_length", "get_node", "repr",
+    "to_symbol_repr", "to_node", "num_bits", "bit", "fmt", "from", "roundtrip_node", "roundtrip_symbol",
+}
+
+
+def file_consts(lib):
+    """file-level integer consts, resolved (those that are not integer expressions are skipped)"""
+    names = re.findall(r"\bconst\s+([A-Z][A-Z0-9_]*)\s*:", lib)
+    env = {}
+    for _ in range(len(names) + 1):
+        for n in names:
+            if n in env:
+                continue
+            try:
+                env[n] = exlib.const_expr(lib, n, "huffman/src/lib.rs", env)
+            except exlib.ExtractError:
+                pass
+    return env
+
+
+def _block(text, i):
+    """text[i] == '{': index one past the matching brace"""
+    depth = 0
+    for j in range(i, len(text)):
+        if text[j] == "{":
+            depth += 1
+        elif text[j] == "}":
+            depth -= 1
+            if depth == 0:
+                return j + 1
+    raise exlib.ExtractError("unbalanced braces in a closure of huffman/src/lib.rs")
+
+
+def _split_closures(text):
+    """(text without closure definitions, {name: closure body}) for `let [mut] name = [move] |..| [-> T] body;`"""
+    closures = {}
+    pat = re.compile(r"\blet\s+(?:mut\s+)?([a-z_][a-z0-9_]*)\s*=\s*(?:move\s+)?\|[^|]*\|\s*(?:->\s*[^{;]+)?")
+    while True:
+        m = pat.search(text)
+        if not m:
+            return text, closures
+        j = m.end()
+        if j < len(text) and text[j] == "{":
+            end = _block(text, j)
+        else:
+            end = text.index(";", j)
+        closures[m.group(1)] = text[j:end]
+        text = text[:m.start()] + text[end:]
+
+
+def constants_of(text, lib, consts, seen, outer=None):
+    text, closures = _split_closures(exlib.strip_rust_comments(text))
+    closures = dict(outer or {}, **closures)
+    out = list(exlib.int_literals(text))
+    for ident in re.findall(r"\b[A-Z][A-Z0-9_]*\b", text):
+        if ident in consts:
+            out.append(consts[ident])
+    for name, body in closures.items():
+        calls = len(re.findall(r"(?<![A-Za-z0-9_.])%s\s*\(" % re.escape(name), text))
+        if calls:
+            rest = {k: v for k, v in closures.items() if k != name}
+            out += calls * constants_of(body, lib, consts, seen, rest)
+    for name in set(re.findall(r"\bfn\s+([a-z_][a-z0-9_]*)", lib)) - KNOWN_FNS - seen:
+        calls = len(re.findall(r"(?:\bself\s*\.\s*|\bSelf\s*::\s*|(?<![A-Za-z0-9_.:]))%s\s*\(" % re.escape(name), text))
+        if calls:
+            out += calls * constants_of(exlib.fn_body(lib, name, 0, "huffman/src/lib.rs"), lib, consts, seen | {name})
+    return out
+
+
 def run(repo):
     rel = "huffman/src/instances/teeworlds.rs"
     src = exlib.strip_rust_comments(exlib.read(repo, rel))
@@ -39,8 +115,14 @@ def run(repo):
         s += "  %3d: " % i + ", ".join("(%s, %s)" % n for n in nodes[i:i + 8]) + "\n"
     s += "-/\n\n"
     s += "/-- huffman/data/frequencies -/\ndef frequencies : List Nat := %s\n\n" % exlib.lean_nat_list(freq)
+    consts = file_consts(lib)
+    s += ("/- Integer constants of the modelled functions as *sorted multisets*: integer literals plus\n"
+          "file-level `const`s resolved to their values; a closure defined inside the function, or a private\n"
+          "helper that did not exist when the model was written, contributes its constants once per call\n"
+          "site.  Order, names of locals and the extraction of a repeated statement into a closure/helper\n"
+          "therefore do not change these lists; a changed, added or removed constant does. -/\n")
     for fn in ("compress_impl_unsafe", "decompress_unsafe", "to_symbol_repr", "to_node"):
         body = exlib.fn_body(lib, fn, 0, "huffman/src/lib.rs")
-        s += "def lits_%s : List Nat := %s\n" % (fn, exlib.lean_nat_list(exlib.int_literals(body)))
+        s += "def lits_%s : List Nat := %s\n" % (fn, exlib.lean_nat_list(sorted(constants_of(body, lib, consts, {fn}))))
     s += "\nend Tw.Gen.Huffman\n"
     return {"Huffman.lean": s}
